@@ -30,7 +30,30 @@ func c12Scenario(sp c12Spec, jsr, serve bool, bound int) e3Scenario {
 	name := fmt.Sprintf("%s/%s/serve=%v", sp.name, router, serve)
 	// expected responses: the real container replayed sequentially, memoised per registration state
 	memo := map[string]string{}
-	expected := func(state string, req int) string {
+	serveOfScenario := serve
+	var expected func(state string, req int) string
+	// expectedVia: the same, through a given entry point
+	expectedVia := func(state string, req int, serve bool) string {
+		if serve == serveOfScenario {
+			return expected(state, req)
+		}
+		k := fmt.Sprintf("%s|%d|other-entry", state, req)
+		if v, ok := memo[k]; ok {
+			return v
+		}
+		w := sp.world(jsr)
+		for _, f := range strings.Split(state, ",") {
+			if f != "" {
+				var i int
+				fmt.Sscan(f, &i)
+				w.muts[i]()
+			}
+		}
+		v := c12Do(w.c, serve, w.reqs[req])
+		memo[k] = v
+		return v
+	}
+	expected = func(state string, req int) string {
 		k := fmt.Sprintf("%s|%d", state, req)
 		if v, ok := memo[k]; ok {
 			return v
@@ -47,20 +70,37 @@ func c12Scenario(sp c12Spec, jsr, serve bool, bound int) e3Scenario {
 		memo[k] = v
 		return v
 	}
-	model := porcupine.Model{
-		Init: func() interface{} { return "" },
-		Step: func(state, input, output interface{}) (bool, interface{}) {
-			st, in := state.(string), input.(c12In)
-			if in.Mut {
-				if st == "" {
-					return true, fmt.Sprint(in.Idx)
+	mkModel := func(staleMux bool) porcupine.Model {
+		return porcupine.Model{
+			Init: func() interface{} { return "" },
+			Step: func(state, input, output interface{}) (bool, interface{}) {
+				st, in := state.(string), input.(c12In)
+				if in.Mut {
+					if st == "" {
+						return true, fmt.Sprint(in.Idx)
+					}
+					return true, st + "," + fmt.Sprint(in.Idx)
 				}
-				return true, st + "," + fmt.Sprint(in.Idx)
-			}
-			return expected(st, in.Idx) == output.(string), st
-		},
-		Equal: func(a, b interface{}) bool { return a.(string) == b.(string) },
+				ok := expected(st, in.Idx) == output.(string)
+				if !ok && staleMux && serve {
+					// recorded finding F18: ServeHTTP consults the mux and the service list in two
+					// separate critical sections; the answer is the dispatcher's own for this state
+					ok = expectedVia(st, in.Idx, false) == output.(string)
+				}
+				if m, self := sp.selfMut[in.Idx]; self {
+					// the request's own route function performs mutation m
+					if st == "" {
+						st = fmt.Sprint(m)
+					} else {
+						st += "," + fmt.Sprint(m)
+					}
+				}
+				return ok, st
+			},
+			Equal: func(a, b interface{}) bool { return a.(string) == b.(string) },
+		}
 	}
+	model := mkModel(false)
 	return e3Scenario{Name: name, Bound: bound, New: func() *e3Inst {
 		w := sp.world(jsr)
 		var ops []porcupine.Operation
@@ -107,6 +147,9 @@ func c12Scenario(sp c12Spec, jsr, serve bool, bound int) e3Scenario {
 					} else {
 						hs = append(hs, fmt.Sprintf("[%d,%d] %s -> %s", o.Call, o.Return, w.reqs[in.Idx].Path(), o.Output))
 					}
+				}
+				if serve && porcupine.CheckOperations(mkModel(true), ops) {
+					return []e3Issue{{"oracle:stale-mux", "no registration state explains the response through ServeHTTP, but it is what the container's dispatcher answers in a state that existed (the ServeMux was consulted before the change, the service list after it): " + strings.Join(hs, "; ")}}
 				}
 				return []e3Issue{{"oracle:not-linearizable", "no registration state that existed during the request explains its response: " + strings.Join(hs, "; ")}}
 			}
@@ -163,8 +206,15 @@ func c12Scenarios(tier string) []e3Scenario {
 }
 
 func checkC12(run *h.Run) {
-	e3RunAll(run, nil)
+	e3RunAll(run, func(v e3Violation) string {
+		for _, is := range v.Issues {
+			if is.Kind != "oracle:stale-mux" {
+				return ""
+			}
+		}
+		return "F18"
+	})
 	run.Cov["distinct_nontrivial"] = run.Cov["schedules"]
-	run.Cov["rule"] = "E3: all schedules of serving threads against mutating threads (Add, Remove, Route, RemoveRoute, and a condition function that panics while the container lock is held) on the real instrumented package, both routers x both entry points, iterative preemption bounding (quick: 2 threads bound 4, two concurrent mutators + a server bound 2; thorough: 2 threads bound 10, 3 threads bound 4). Oracles on every execution: vector-clock happens-before race detection over every struct field and package variable access of the package, no panic, no deadlock, and linearizability (porcupine) of the call/return history against the real container replayed sequentially (status, route, Allow set), and requests to services and routes no mutation touches are answered as on the initial container."
+	run.Cov["rule"] = "E3: all schedules of serving threads against mutating threads (Add, Remove, Route, RemoveRoute, a condition function that panics while the container lock is held, the OPTIONS filter walking the service list, a route function that itself adds a service) on the real instrumented package, both routers x both entry points, iterative preemption bounding (quick: 2 threads bound 4, two concurrent mutators + a server bound 2; thorough: 2 threads bound 10, 3 threads bound 4). Oracles on every execution: vector-clock happens-before race detection over every struct field and package variable access of the package, no panic, no deadlock, and linearizability (porcupine) of the call/return history against the real container replayed sequentially (status, route, Allow set), and requests to services and routes no mutation touches are answered as on the initial container."
 	run.Assume = []string{"sequential consistency at synchronisation granularity; races are reported as violations outright", "field-granular race detection (element-level accesses are covered by the free-running -race pass only)", "net/http.ServeMux internals executed, not instrumented"}
 }
